@@ -495,3 +495,132 @@ Example overlaps_example :
   overlaps (mkTables 10 [] [] [] [] [] 0) [(4, 9, 2); (0, 6, 1); (0, 3, 5)]
   = [(0, 3, [(0, 6, 1); (0, 3, 5)]); (3, 4, [(0, 6, 1)]); (4, 6, [(0, 6, 1); (4, 9, 2)]); (6, 9, [(4, 9, 2)])].
 Proof. vm_compute. reflexivity. Qed.
+
+(* ---- list-level exactness: X is the filter of the sorted queue --------------------------- *)
+Definition covers_b (x : Z) (s : seg) : bool := (seg_l s <=? x) && (x <? seg_r s).
+
+Lemma filter_filter_impl {A} (P Q : A -> bool) l :
+  (forall x, In x l -> Q x = true -> P x = true) -> filter Q (filter P l) = filter Q l.
+Proof.
+  induction l as [|x l IH]; intros H; simpl; [reflexivity|].
+  assert (IH' := IH (fun y Hy => H y (or_intror Hy))).
+  destruct (P x) eqn:EP; simpl.
+  - rewrite IH'. reflexivity.
+  - destruct (Q x) eqn:EQ; [rewrite (H x (or_introl eq_refl) EQ) in EP; discriminate | exact IH'].
+Qed.
+
+Lemma filter_ext_in' {A} (P Q : A -> bool) l : (forall x, In x l -> P x = Q x) -> filter P l = filter Q l.
+Proof.
+  induction l as [|x l IH]; intros H; simpl; [reflexivity|].
+  rewrite (H x (or_introl eq_refl)), IH; [reflexivity|]. intros y Hy. apply H. right; exact Hy.
+Qed.
+
+Lemma filter_none {A} (P : A -> bool) l : (forall x, In x l -> P x = false) -> filter P l = [].
+Proof.
+  induction l as [|x l IH]; intros H; simpl; [reflexivity|].
+  rewrite (H x (or_introl eq_refl)). apply IH. intros y Hy. apply H. right; exact Hy.
+Qed.
+
+Lemma filter_all' {A} (P : A -> bool) l : (forall x, In x l -> P x = true) -> filter P l = l.
+Proof.
+  induction l as [|x l IH]; intros H; simpl; [reflexivity|].
+  rewrite (H x (or_introl eq_refl)). f_equal. apply IH. intros y Hy. apply H. right; exact Hy.
+Qed.
+
+Lemma st_X1_mono pre a b : a <= b -> st_X1 (st_X1 pre a) b = st_X1 pre b.
+Proof.
+  intros H. unfold st_X1. apply filter_filter_impl. intros x _ Hx.
+  apply Z.gtb_lt in Hx. apply Z.gtb_lt. lia.
+Qed.
+
+Lemma loop_exact inf f : forall pre S X rgt,
+  Inv S X rgt inf ->
+  st_X1 X rgt = st_X1 pre rgt -> (forall s, In s pre -> seg_l s <= rgt) ->
+  forall l r Y, In (l, r, Y) (overlap_loop f S X rgt inf) -> Y = filter (covers_b l) (pre ++ S).
+Proof.
+  induction f as [|f IH]; intros pre S X rgt HI HX Hpre l r Y Hin; [contradiction|].
+  destruct S as [|s0 rest].
+  - rewrite loop_nil in Hin. cbv zeta in Hin.
+    destruct (is_nil (st_X1 X rgt)) eqn:En; [contradiction|].
+    assert (Hne : st_X1 X rgt <> []) by (intros E; rewrite E in En; discriminate).
+    destruct (step_nil X rgt inf HI Hne) as [A [_ [_ D]]].
+    remember (fold_left Z.min (map seg_r (st_X1 X rgt)) inf) as rgt1 eqn:Er1.
+    destruct Hin as [E | Hin].
+    + inversion E; subst l r Y. rewrite app_nil_r, HX. unfold st_X1. apply filter_ext_in'.
+      intros x Hx. unfold covers_b. specialize (Hpre x Hx).
+      rewrite Z.gtb_ltb. destruct (seg_l x <=? rgt) eqn:E1; [reflexivity | apply Z.leb_gt in E1; lia].
+    + apply (IH pre [] (st_X1 X rgt) _ D) in Hin; auto.
+      * rewrite HX. apply st_X1_mono. lia.
+      * intros s Hs. specialize (Hpre s Hs). lia.
+  - rewrite loop_cons in Hin. cbv zeta in Hin.
+    destruct (take_left (st_left s0 (st_X1 X rgt) rgt) (s0 :: rest)) as [new S'] eqn:ET.
+    destruct (step_cons s0 rest X rgt inf new S' HI ET) as [E1 [A [B [C [D [Dn [F [_ G]]]]]]]].
+    set (X1 := st_X1 X rgt) in *. set (lft := st_left s0 X1 rgt) in *.
+    remember (fold_left Z.min (map seg_r (X1 ++ new)) (st_r0 S' inf)) as rgt' eqn:Er'.
+    destruct Hin as [E | Hin].
+    + inversion E; subst l r Y. rewrite E1, !filter_app.
+      assert (Hpre_f : filter (covers_b lft) pre = X1).
+      { assert (HX' : X1 = st_X1 pre rgt) by exact HX.
+        assert (Hl : X1 <> [] -> lft = rgt) by (intros Hne; unfold lft; apply st_left_nonempty; exact Hne).
+        clearbody lft. clearbody X1.
+        destruct X1 as [|x1 X1'].
+        - (* nothing alive: nothing in pre reaches beyond rgt <= lft *)
+          apply filter_none. intros x Hx. unfold covers_b.
+          assert (Hdead : (seg_r x >? rgt) = false).
+          { destruct (seg_r x >? rgt) eqn:Ea; [|reflexivity]. exfalso.
+            assert (H : In x (st_X1 pre rgt)) by (apply st_X1_in; split; [exact Hx | apply Z.gtb_lt; exact Ea]).
+            rewrite <- HX' in H. contradiction. }
+          rewrite Z.gtb_ltb in Hdead. apply Z.ltb_ge in Hdead.
+          destruct (lft <? seg_r x) eqn:E2; [apply Z.ltb_lt in E2; lia | apply andb_false_r].
+        - assert (El : lft = rgt) by (apply Hl; discriminate).
+          rewrite HX'. unfold st_X1. apply filter_ext_in'.
+          intros x Hx. unfold covers_b. specialize (Hpre x Hx). rewrite El, Z.gtb_ltb.
+          destruct (seg_l x <=? rgt) eqn:Ele; [reflexivity | apply Z.leb_gt in Ele; lia]. }
+      assert (Hnew_f : filter (covers_b lft) new = new).
+      { apply filter_all'. intros x Hx. unfold covers_b.
+        assert (Hx2 : In x (X1 ++ new)) by (apply in_or_app; right; exact Hx).
+        destruct (D x Hx2) as [_ [V [Lx Rx]]]. unfold valid in V. rewrite (Dn x Hx) in *.
+        apply andb_true_iff. split; [apply Z.leb_le; lia | apply Z.ltb_lt; lia]. }
+      assert (HS'_f : filter (covers_b lft) S' = []).
+      { apply filter_none. intros x Hx. unfold covers_b. specialize (F x Hx).
+        destruct (seg_l x <=? lft) eqn:Ele; [apply Z.leb_le in Ele; lia | reflexivity]. }
+      rewrite Hpre_f, Hnew_f, HS'_f, app_nil_r. reflexivity.
+    + replace (pre ++ s0 :: rest) with ((pre ++ new) ++ S') by (rewrite E1, app_assoc; reflexivity).
+      apply (IH (pre ++ new) S' (X1 ++ new) rgt' G) with (r := r); [ | | exact Hin].
+      * unfold st_X1. rewrite !filter_app. fold (st_X1 X1 rgt') (st_X1 pre rgt') (st_X1 new rgt').
+        f_equal. assert (HX' : X1 = st_X1 pre rgt) by exact HX. rewrite HX'. apply st_X1_mono. lia.
+      * intros s Hs. apply in_app_or in Hs as [Hs | Hs]; [specialize (Hpre s Hs); lia|].
+        rewrite (Dn s Hs). lia.
+Qed.
+
+Lemma filter_sort_length (P : seg -> bool) q :
+  length (filter P (sort_segs q)) = length (filter P q).
+Proof.
+  unfold sort_segs. induction q as [|x q IH]; simpl; [reflexivity|].
+  assert (H : forall l, length (filter P (seg_insert x l)) = length (filter P (x :: l))).
+  { induction l as [|z l IHl]; simpl; [reflexivity|].
+    destruct ((seg_l x <? seg_l z) || ((seg_l x =? seg_l z) && (seg_n x <=? seg_n z))); simpl; [reflexivity|].
+    simpl in IHl. destruct (P z); simpl; rewrite IHl; destruct (P x); simpl; lia. }
+  rewrite H. simpl. destruct (P x); simpl; rewrite IH; reflexivity.
+Qed.
+
+(* the pieces carry, as LISTS, exactly the sorted queue's segments covering their left end:
+   num_overlapping is the number of queued segments covering the piece *)
+Lemma overlapper_exact_lemma (t : tables) (Q : list seg) :
+  (forall s, In s Q -> seg_l s < seg_r s /\ seg_r s <= t_L t) ->
+  forall l r Y, In (l, r, Y) (overlaps t Q) ->
+    Y = filter (covers_b l) (sort_segs Q) /\
+    length Y = length (filter (covers_b l) Q).
+Proof.
+  intros HQ l r Y Hin. unfold overlaps in Hin.
+  set (inf := t_L t + 1) in *.
+  set (r0 := fold_left Z.min (map seg_l Q) 0).
+  rewrite (loop_X_nil _ _ inf r0 inf) in Hin.
+  assert (HI : Inv (sort_segs Q) [] r0 inf).
+  { split; [apply sort_segs_sorted|]. split; [|intros x []].
+    intros s Hs. apply (proj1 (sort_segs_in Q s)) in Hs. destruct (HQ s Hs) as [V R].
+    split; [exact V|]. split; [apply fold_min_le_in; apply in_map; exact Hs | unfold inf; lia]. }
+  assert (E : Y = filter (covers_b l) ([] ++ sort_segs Q)).
+  { apply (loop_exact inf _ [] (sort_segs Q) [] r0 HI eq_refl (fun s (H : In s []) => match H with end) l r Y Hin). }
+  simpl in E. split; [exact E|]. rewrite E. apply filter_sort_length.
+Qed.
